@@ -92,6 +92,23 @@ def make_rule(driver, L):
     raise ValueError(driver)
 
 
+def seq_driver_ok():
+    """The 'seq' driver is a subclass written by this harness against rrulebase's private subclass protocol (a
+    generator method `_iter` that records `_len` when exhausted).  If a tree changes that protocol the driver says
+    nothing about the library, so it is validated sequentially first and left out (not judged) when it does not hold."""
+    try:
+        for n in (0, 1, 11):
+            a = make_rule('seq', n)
+            if list(a) != list(range(n)) or list(a) != list(range(n)) or a.count() != n:
+                return False
+            b = make_rule('seq', n)
+            if b.count() != n or (n and b[n - 1] != n - 1):
+                return False
+        return True
+    except Exception:
+        return False
+
+
 def members_of(rule):
     """cached member rules of a set (they own locks as well)"""
     out = []
@@ -168,7 +185,7 @@ def h_step(st, op):
     try:
         k = op[0]
         if k == 'new':
-            complete = bool(r._cache_complete)
+            complete = bool(getattr(r, '_cache_complete', False))
             st.its.append([iter(r), 0, False, 'list' if complete else 'gen'])
             return ('ok', None)
         if k == 'next':
@@ -255,9 +272,12 @@ def eval_history(case):
 
     def canon(st):
         r = st.rule
-        return (tuple((it[1], it[2], it[3], it[1] > 0) for it in st.its), len(r._cache or ()),
-                bool(r._cache_complete), r._len, tuple(bool(lk.locked()) for lk in st.locks),
-                tuple((len(m._cache or ()), bool(m._cache_complete)) for m in st.members))
+        # private attributes are read tolerantly: if a name disappears the canonical form only gets coarser per
+        # iterator state (fewer distinct states are expanded), it never produces a verdict
+        g = getattr
+        return (tuple((it[1], it[2], it[3], it[1] > 0) for it in st.its), len(g(r, '_cache', None) or ()),
+                bool(g(r, '_cache_complete', False)), g(r, '_len', None), tuple(bool(lk.locked()) for lk in st.locks),
+                tuple((len(g(m, '_cache', None) or ()), bool(g(m, '_cache_complete', False))) for m in st.members))
     try:
         res = with_alarm(600.0, history.bfs, fresh, ops_for, h_step, check, canon, depth, 400000)
     except Capped:
@@ -345,8 +365,15 @@ def sched_harness(driver, L, ops):
         for op, res in zip(ops, ex.results):
             if res != expected_result(op, L, E):
                 return ('wrong-sequence', op, repr(res)[:200])
-        if rule._cache_complete and rule._len != len(E):
-            return ('wrong-len', rule._len)
+        # the remembered length is internal; what can be observed is count() once everything is quiet
+        try:
+            n = rule.count()
+        except schedule.SelfDeadlock:
+            return ('blocked-after-quiescence', 'count()')
+        except Exception as e:
+            return ('exception', 'count() afterwards: ' + type(e).__name__)
+        if n != len(E):
+            return ('wrong-len', n)
         return ('ok',)
     return make, check, {RR.__file__}
 
@@ -422,8 +449,9 @@ def replay(part, case):
 def run(ctx):
     history.selftest()
     schedule.selftest()
+    seq_ok = seq_driver_ok()
     hist_cases = []
-    for driver in ('seq', 'rrule', 'set'):
+    for driver in (('seq',) if seq_ok else ()) + ('rrule', 'set'):
         for L in LENGTHS:
             if ctx.thorough:
                 maxit = 4 if L <= 1 else (3 if L <= 12 else 2)
@@ -477,6 +505,11 @@ def run(ctx):
         for L in (10, 11, 12):
             for ops in triples:
                 sched_cases.append(('seq', L, ops, 1, 400000))
+    if not seq_ok:
+        # the harness's own subclass does not fit this tree: its cases are run on real rules instead (bound 1)
+        sched_cases = [c if c[0] != 'seq' else ('rrule', c[1], c[2], min(c[3], 1), c[4]) for c in sched_cases if len(c[2]) == 2]
+        sched_cases = sorted(set(sched_cases))
+        ctx.assumptions.append('seq driver not usable on this tree (private subclass protocol changed): replaced by rrule driver at bound 1')
     sched_cases.sort(key=lambda c: (-c[3], -c[1]))       # heaviest explorations first (load balance only)
     split = []
     for c in sched_cases:
